@@ -9,7 +9,7 @@ import os
 import random
 import sys
 import time
-from asyncio import Future, ensure_future, iscoroutine, sleep
+from asyncio import Future, ensure_future, gather, iscoroutine, sleep
 from binascii import hexlify, unhexlify
 from collections import Counter, defaultdict
 from struct import pack
@@ -251,12 +251,17 @@ class TunnelCommunity(Community):
         """
         Remove all circuits/relays/exitsockets.
         """
+        removals = []
         for circuit_id in list(self.circuits.keys()):
-            self.remove_circuit(circuit_id, "unload", remove_now=True, destroy=DESTROY_REASON_SHUTDOWN)
+            removals.append(self.remove_circuit(circuit_id, "unload", remove_now=True, destroy=DESTROY_REASON_SHUTDOWN))
         for circuit_id in list(self.relay_from_to.keys()):
-            self.remove_relay(circuit_id, "unload", remove_now=True, destroy=DESTROY_REASON_SHUTDOWN)
+            removals.append(self.remove_relay(circuit_id, "unload", remove_now=True, destroy=DESTROY_REASON_SHUTDOWN))
         for circuit_id in list(self.exit_sockets.keys()):
-            self.remove_exit_socket(circuit_id, "unload", remove_now=True, destroy=DESTROY_REASON_SHUTDOWN)
+            removals.append(self.remove_exit_socket(circuit_id, "unload", remove_now=True,
+                                                    destroy=DESTROY_REASON_SHUTDOWN))
+        # Wait for the removals (which close the exit sockets): shutting down the task manager would cancel them.
+        if removals:
+            await gather(*removals, return_exceptions=True)
 
         # The crypto endpoint registered itself as our listener: it must not forward packets to us anymore.
         crypto_endpoint = getattr(self, "crypto_endpoint", None)
@@ -501,7 +506,7 @@ class TunnelCommunity(Community):
 
         circuit_to_remove.close(additional_info)
 
-        if not remove_now or self.settings.remove_tunnel_delay > 0:
+        if not remove_now:
             await sleep(self.settings.remove_tunnel_delay)
 
         circuit = self.circuits.pop(circuit_id, None)
@@ -518,7 +523,7 @@ class TunnelCommunity(Community):
         if destroy:
             self.destroy_relay(circuit_id, reason=destroy)
 
-        if not remove_now or self.settings.remove_tunnel_delay > 0:
+        if not remove_now:
             await sleep(self.settings.remove_tunnel_delay)
 
         self.logger.info("Removing relay %d %s", circuit_id, additional_info)
@@ -535,7 +540,7 @@ class TunnelCommunity(Community):
         if exit_socket_to_destroy and destroy:
             self.destroy_exit_socket(exit_socket_to_destroy, reason=destroy)
 
-        if not remove_now or self.settings.remove_tunnel_delay > 0:
+        if not remove_now:
             await sleep(self.settings.remove_tunnel_delay)
 
         self.logger.info("Removing exit socket %d %s", circuit_id, additional_info)
